@@ -26,4 +26,7 @@ ErrMapOk(e) == IF e.variant = "Disconnected" THEN ~e.normal                     
 \* every 5xx that is sent is marked connection: close (and closes the write side); nothing else is
 CloseMarkOk(e) == LET five == e.code >= 500 /\ e.code <= 599 IN
                   e.res = "Ok" /\ e.gotCode = e.code /\ e.closeHeader = five /\ e.shut = five
+\* the same for the answers the server itself generates for bad requests, read off the wire: an answer was sent, and it
+\* carries the marker iff the code that was written is in the 5xx range
+WireCloseMarkOk(e) == e.code >= 100 /\ e.closeHeader = (e.code >= 500 /\ e.code <= 599)
 ====
